@@ -457,9 +457,10 @@ fn start_states(tier: Tier) -> Vec<FaultCfg> {
 // ------------------------------------------------------------------------------------------
 // (b) map sizes
 
-fn map_sizes(report: &mut Report, tier: Tier) {
-    let metric = Metric::Euclidean;
-    type D = arroy::distances::Euclidean;
+/// `metric`: the metric of the index; `items_first`: the items of the first round are committed in a transaction of
+/// their own and built in the next one (the build then has to copy clean pages: with DotProduct, whose
+/// preprocessing pass rewrites every leaf header, that copy is what fills the smallest maps).
+fn map_sizes(report: &mut Report, tier: Tier, metric: Metric, items_first: bool) {
     let (dim, n1, n2) = if tier == Tier::Quick { (130usize, 100usize, 20usize) } else { (130usize, 240usize, 60usize) };
     let page = 4096usize;
     let vecf = |i: usize| -> Vec<u32> { (0..dim).map(|j| ((((i * 7 + j * 3) % 23) as f32) - 11.0).to_bits()).collect() };
@@ -497,7 +498,13 @@ fn map_sizes(report: &mut Report, tier: Tier) {
         // a third transaction without any item operation: the forest shrinks from 3 trees to 1 (two whole trees are deleted)
         let txn3: Vec<Action> = vec![Action::Build { index: 0, opts: BuildOpts { n_trees: Some(1), ..opts.clone() } }];
         let mut failed: Option<(usize, String, Vec<Action>)> = None; // (txn, failing call, actions of the failed txn)
-        'txns: for (ti, acts) in [txn1, txn2, txn3].into_iter().enumerate() {
+        let txns: Vec<Vec<Action>> = if items_first {
+            let (adds, build) = txn1.split_at(n1);
+            vec![adds.to_vec(), build.to_vec(), txn2, txn3]
+        } else {
+            vec![txn1, txn2, txn3]
+        };
+        'txns: for (ti, acts) in txns.into_iter().enumerate() {
             let committed_model = model.clone();
             let mut wtxn = match s.env.write_txn() {
                 Ok(w) => w,
@@ -595,6 +602,11 @@ fn map_sizes(report: &mut Report, tier: Tier) {
                 }
                 let kv = big.dump(&wb);
                 wb.abort();
+                // a transaction of item operations only (items_first) ends without a build: there is no forest to judge
+                if !acts.iter().any(|a| matches!(a, Action::Build { .. })) {
+                    k += 1;
+                    continue;
+                }
                 let ok = decode_index(&kv, 0, metric, dim).map_err(|e| ("F/undecodable".to_string(), e)).and_then(|ix| oracle::structure(&ix, &m2.keys().copied().collect(), metric, dim).map(|_| ()));
                 if let Err((c, m)) = ok {
                     report.add_violation(Violation::new(format!("E/retry:{c}"), format!("map of {k} pages, after {call} failed: the retry gives an invalid index: {m}")));
@@ -604,10 +616,10 @@ fn map_sizes(report: &mut Report, tier: Tier) {
         }
         k += 1;
     }
-    let _ = <D as arroy::Distance>::name();
-    report.cov("map_sizes_tried", sizes);
-    report.cov("map_first_success_pages", first_ok.unwrap_or(0) as u64);
-    report.cov("map_first_failing_call", json!(failing_calls));
+    let prefix = if items_first { format!("map_{}_items_committed_first", metric.short()) } else { "map".to_string() };
+    report.cov(&format!("{prefix}_sizes_tried"), sizes);
+    report.cov(&format!("{prefix}_first_success_pages"), first_ok.unwrap_or(0) as u64);
+    report.cov(&format!("{prefix}_first_failing_call"), json!(failing_calls));
     report.cov_add("evaluations", sizes);
     report.cov_add("distinct_nontrivial", sizes.saturating_sub(17));
 }
@@ -642,7 +654,13 @@ pub fn run(tier: Tier) -> i32 {
     if let Some(c) = &o.cap_hit {
         report.cov("cap_hit", c.clone());
     }
-    crate::explore::in_single_thread_pool(|| map_sizes(&mut report, tier));
+    crate::explore::in_single_thread_pool(|| {
+        map_sizes(&mut report, tier, Metric::Euclidean, false);
+        // DotProduct (the only metric whose build starts with a pass that rewrites every leaf), items committed first
+        if report.violations.is_empty() && report.machinery_errors.is_empty() {
+            map_sizes(&mut report, tier, Metric::DotProduct, true);
+        }
+    });
     report.cov("rule", "(a) for every start state (base population x base build x pending insertions/deletions/overwrites, committed) and every build configuration: the cancel callback answers true from its n-th call, for every n in 0..=polls of the fault-free build; (b) LMDB maps of k pages for every k from 4 up to 16 past the first size at which the two-transaction scenario succeeds; (c) three unusable temp directories per start state. Judged: the error value (BuildCancelled / MapFull / Io), never a panic, Ok only when the callback was not asked again (then S and X hold), abort restores the exact previous dump, a retry without the fault succeeds with S and X, the temp directory listing and the number of open descriptors are identical before and after every build. A fault is non-trivial when it really interrupted the build (an error was reported).");
     report.sample(json!({"start_state": sys.cfgs.get(7).map(|c| c.to_json()), "fault": "cancel answering true from poll n, for every n"}));
     report.finish()
